@@ -4,3 +4,6 @@ import Codec.Wire
 import Codec.Handlers
 import Codec.Sha256
 import Codec.Parse
+import Codec.GenEndpoints
+import Codec.Spec
+import Codec.Lemmas
